@@ -204,6 +204,9 @@ def write_lammps(dirpath, L0, species, frac):
             lines.append(f'{sp} {c[0]:.8f} {c[1]:.8f} {c[2]:.8f}\n')
     with open(os.path.join(dirpath, 'coords.xyz'), 'w') as f:
         f.write(''.join(lines))
+    # a second data file for the same coordinates (another cell): same coords_file, different data_file
+    s2 = Structure(Lattice(np.asarray(L0) * 1.25), species, frac[0])
+    LammpsData.from_structure(s2, atom_style='atomic').write_file(os.path.join(dirpath, 'data2.txt'))
 
 
 def write_gromacs(dirpath, box, species, frac, dt=2.0):
@@ -224,6 +227,17 @@ def write_gromacs(dirpath, box, species, frac, dt=2.0):
     u.dimensions = dims
     u.atoms.positions = cart[0]
     u.atoms.write(os.path.join(dirpath, 'top.gro'))
+    # a second topology for the same coordinates (other element names): same coords_file, different topology_file
+    swap = {'LI': 'NA', 'NA': 'LI', 'S': 'O', 'O': 'S', 'P': 'S'}
+    names2 = []
+    counts2: dict = {}
+    for s in species:
+        t = swap.get(s.upper(), 'LI')
+        counts2[t] = counts2.get(t, 0) + 1
+        names2.append(f'{t}{counts2[t]}')
+    u.atoms.names = names2
+    u.atoms.write(os.path.join(dirpath, 'top2.gro'))
+    u.atoms.names = names
     with mda.Writer(os.path.join(dirpath, 'traj.xtc'), na) as w:
         for i in range(nf):
             u.atoms.positions = cart[i]
@@ -242,10 +256,10 @@ def write_dataset(d: dict, dirpath: str):
         return ['vasprun.xml']
     if d['fmt'] == 'lammps':
         write_lammps(dirpath, lats[0], d['species'], frac)
-        return ['data.txt', 'coords.xyz']
+        return ['data.txt', 'data2.txt', 'coords.xyz']
     if d['fmt'] == 'gromacs':
         write_gromacs(dirpath, d['lattice']['params'][:3], d['species'], frac, d['dt'])
-        return ['top.gro', 'traj.xtc']
+        return ['top.gro', 'top2.gro', 'traj.xtc']
     raise ValueError(d['fmt'])
 
 
@@ -261,6 +275,8 @@ ARGSETS = {
         {'temperature': 300, 'time_step': 1.0, 'constant_lattice': False},
         {'temperature': 300, 'time_step': 1.0, 'atom_style': 'charge'},
         {'temperature': 700, 'time_step': 2.5, 'type_mapping': 'A'},
+        {'temperature': 300, 'time_step': 1.0, '_data': 'data2.txt'},
+        {'temperature': 300, 'time_step': 1.0, 'coords_format': 'XYZ'},
     ],
     'vasp': [
         {},
@@ -276,6 +292,7 @@ ARGSETS = {
         {'temperature': 300},
         {'temperature': 450},
         {'temperature': 300, 'constant_lattice': False},
+        {'temperature': 300, '_top': 'top2.gro'},
     ],
 }
 
@@ -291,13 +308,13 @@ def loader_call(fmt: str, dirpath: str, argset: dict, cache):
     if fmt == 'lammps':
         if 'type_mapping' in a:
             a['type_mapping'] = dict(TYPE_MAPS[a['type_mapping']])
-        kw = dict(coords_file=os.path.join(dirpath, 'coords.xyz'), data_file=os.path.join(dirpath, 'data.txt'), **a)
+        kw = dict(coords_file=os.path.join(dirpath, 'coords.xyz'), data_file=os.path.join(dirpath, a.pop('_data', 'data.txt')), **a)
         name = 'from_lammps'
     elif fmt == 'vasp':
         kw = dict(xml_file=os.path.join(dirpath, 'vasprun.xml'), **a)
         name = 'from_vasprun'
     else:
-        kw = dict(topology_file=os.path.join(dirpath, 'top.gro'), coords_file=os.path.join(dirpath, 'traj.xtc'), **a)
+        kw = dict(topology_file=os.path.join(dirpath, a.pop('_top', 'top.gro')), coords_file=os.path.join(dirpath, 'traj.xtc'), **a)
         name = 'from_gromacs'
     if cache is not None:
         kw['cache'] = cache
